@@ -50,8 +50,12 @@ def lean_str(s):
             out.append("\\n")
         elif 32 <= ord(ch) < 127:
             out.append(ch)
+        elif ord(ch) < 256:
+            out.append("\\x%02x" % ord(ch))
+        elif ord(ch) < 0x10000:
+            out.append("\\u%04x" % ord(ch))
         else:
-            out.append("\\u{%x}" % ord(ch))
+            out.append(ch)
     out.append('"')
     return "".join(out)
 
@@ -1012,7 +1016,90 @@ def t12_graph_interface():
 
 
 
-ITEMS = {"T1": t1_fields, "T2": t2_whitelist, "T3": t3_file_modes, "T4": t4_conv_axis, "T5": t5_flatten, "T6": t6_lif, "T7": t7_cuba, "T8": t8_unique_name, "T9": t9_neuron_shapes, "T10": t10_guards, "T11": t11_dict_overrides, "T12": t12_graph_interface}
+# ---------------------------------------------------------------------------------------
+# T13  nir.write: refused characters in names, the metadata rule, the two root members
+# ---------------------------------------------------------------------------------------
+def t13_write_shape():
+    item = "T13"
+    tree = ast.parse(_src("nir/serialization.py"))
+    fn = _find_func(tree, "write")
+    if fn is None:
+        raise Refusal(item, "write not found")
+    inner = [n for n in fn.body if isinstance(n, ast.FunctionDef) and n.name == "write_recursive"]
+    if len(inner) != 1:
+        raise Refusal(item, "write does not define write_recursive")
+    wr = inner[0]
+    loops = [st for st in wr.body if isinstance(st, ast.For)]
+    if len(loops) != 1 or ast.dump(loops[0].iter) != "Call(func=Attribute(value=Name(id='node', ctx=Load()), attr='items', ctx=Load()), args=[], keywords=[])":
+        raise Refusal(item, "write_recursive is not one loop over node.items()")
+    kname = loops[0].target.elts[0].id if isinstance(loops[0].target, ast.Tuple) else None
+    vname = loops[0].target.elts[1].id if isinstance(loops[0].target, ast.Tuple) else None
+    body = loops[0].body
+    if len(body) != 2 or not all(isinstance(b, ast.If) for b in body):
+        raise Refusal(item, "loop body is not `if <bad name>: raise` followed by the dispatch on the value")
+    g0 = body[0]
+    tests = g0.test.values if isinstance(g0.test, ast.BoolOp) and isinstance(g0.test.op, ast.Or) else [g0.test]
+    bad = []
+    for t in tests:
+        ok = isinstance(t, ast.Compare) and len(t.ops) == 1 and isinstance(t.ops[0], ast.In) and isinstance(t.left, ast.Constant) \
+            and isinstance(t.left.value, str) and ast.dump(t.comparators[0]) == f"Call(func=Name(id='str', ctx=Load()), args=[Name(id='{kname}', ctx=Load())], keywords=[])"
+        if not ok:
+            raise Refusal(item, "name guard is not a disjunction of `<literal> in str(k)`")
+        bad.append(t.left.value)
+    if not (len(g0.body) == 1 and isinstance(g0.body[0], ast.Raise) and isinstance(g0.body[0].exc, ast.Call)
+            and getattr(g0.body[0].exc.func, "id", None) == "ValueError" and not g0.orelse):
+        raise Refusal(item, "name guard does not raise ValueError")
+    d = body[1]
+    ok = isinstance(d.test, ast.Compare) and len(d.test.ops) == 1 and isinstance(d.test.ops[0], ast.Eq) \
+        and getattr(d.test.left, "id", None) == kname and isinstance(d.test.comparators[0], ast.Constant) and isinstance(d.test.comparators[0].value, str)
+    if not ok:
+        raise Refusal(item, "the dispatch does not begin with `if k == <metadata key>`")
+    mkey = d.test.comparators[0].value
+    mb = d.body
+    ok = len(mb) == 1 and isinstance(mb[0], ast.If) and not mb[0].orelse and \
+        ast.dump(mb[0].test) == f"UnaryOp(op=Not(), operand=Compare(left=Name(id='{vname}', ctx=Load()), ops=[Eq()], comparators=[Dict(keys=[], values=[])]))" \
+        and len(mb[0].body) == 1 and ast.dump(mb[0].body[0]) == \
+        f"Expr(value=Call(func=Name(id='write_recursive', ctx=Load()), args=[Call(func=Attribute(value=Name(id='group', ctx=Load()), attr='create_group', " \
+        f"ctx=Load()), args=[Name(id='{kname}', ctx=Load())], keywords=[]), Name(id='{vname}', ctx=Load())], keywords=[]))"
+    if not ok:
+        raise Refusal(item, "metadata branch is not `if not v == {}: write_recursive(group.create_group(k), v)`")
+    # the root: exactly one `with h5py.File(...) as f` holding version dataset, node group, recursive call on graph.to_dict()
+    withs = [st for st in fn.body if isinstance(st, ast.With)]
+    if len(withs) != 1:
+        raise Refusal(item, "write does not have exactly one with-block")
+    wb = withs[0].body
+    fvar = withs[0].items[0].optional_vars.id if isinstance(withs[0].items[0].optional_vars, ast.Name) else None
+    if len(wb) != 3:
+        raise Refusal(item, f"the with-block of write has {len(wb)} statements, expected 3")
+    s0, s1, s2 = wb
+    ok = isinstance(s0, ast.Expr) and isinstance(s0.value, ast.Call) and ast.dump(s0.value.func) == f"Attribute(value=Name(id='{fvar}', ctx=Load()), attr='create_dataset', ctx=Load())" \
+        and len(s0.value.args) == 1 and isinstance(s0.value.args[0], ast.Constant) and isinstance(s0.value.args[0].value, str) \
+        and [(k.arg, ast.dump(k.value)) for k in s0.value.keywords] == [("data", "Attribute(value=Name(id='nir', ctx=Load()), attr='version', ctx=Load())")]
+    if not ok:
+        raise Refusal(item, "first root member is not `f.create_dataset(<name>, data=nir.version)`")
+    vroot = s0.value.args[0].value
+    ok = isinstance(s1, ast.Assign) and len(s1.targets) == 1 and isinstance(s1.targets[0], ast.Name) and isinstance(s1.value, ast.Call) \
+        and ast.dump(s1.value.func) == f"Attribute(value=Name(id='{fvar}', ctx=Load()), attr='create_group', ctx=Load())" \
+        and len(s1.value.args) == 1 and isinstance(s1.value.args[0], ast.Constant) and isinstance(s1.value.args[0].value, str) and not s1.value.keywords
+    if not ok:
+        raise Refusal(item, "second root member is not `<g> = f.create_group(<name>)`")
+    nroot = s1.value.args[0].value
+    ok = ast.dump(s2) == f"Expr(value=Call(func=Name(id='write_recursive', ctx=Load()), args=[Name(id='{s1.targets[0].id}', ctx=Load()), " \
+        "Call(func=Attribute(value=Name(id='graph', ctx=Load()), attr='to_dict', ctx=Load()), args=[], keywords=[])], keywords=[]))"
+    if not ok:
+        raise Refusal(item, "the node group is not filled by write_recursive(<g>, graph.to_dict())")
+    txt = HEADER + "\nnamespace NirVerif.Generated\n\n" \
+        "/-- substrings whose presence in a key makes `nir.write` raise ValueError (write_recursive's first test) -/\n" \
+        "def forbiddenInNames : List String := [" + ", ".join(lean_str(b) for b in bad) + "]\n" \
+        "/-- the key whose empty dictionary is skipped and whose non-empty dictionary becomes a group -/\n" \
+        f"def metadataKey : String := {lean_str(mkey)}\n" \
+        "/-- the two members of the file root: the version dataset (`nir.version`) and the group filled from `graph.to_dict()` -/\n" \
+        f"def rootVersionName : String := {lean_str(vroot)}\ndef rootNodeName : String := {lean_str(nroot)}\n\nend NirVerif.Generated\n"
+    return {"WriteShape.lean": txt}
+
+
+
+ITEMS = {"T1": t1_fields, "T2": t2_whitelist, "T3": t3_file_modes, "T4": t4_conv_axis, "T5": t5_flatten, "T6": t6_lif, "T7": t7_cuba, "T8": t8_unique_name, "T9": t9_neuron_shapes, "T10": t10_guards, "T11": t11_dict_overrides, "T12": t12_graph_interface, "T13": t13_write_shape}
 
 
 def regenerate(out_dir=OUT, items=None):
